@@ -563,7 +563,9 @@ func evalC10(c *rt.Case) (bool, string, string, error) {
 	probes := c10Probes()
 	var fails bool
 	var e, g string
-	want := c.Key()
+	cc := *c
+	cc.Class = ""
+	want := cc.Key()
 	emit := func(class string, fc rt.Case, exp, got string) {
 		if fc.Key() == want {
 			fails, e, g = true, exp, got
